@@ -80,6 +80,27 @@ func nodeIntDecBit(n *yaml.Node) int {
 	return 0
 }
 
+// nodeNullDecBit: per-NODE answer bit 12 (Run/C19.v null_ok_run): the scalar decodes into `any` without error and
+// yields nil (parser.go nullTagWithText, fix b9483ac).
+func nodeNullDecBit(n *yaml.Node) int {
+	if n.Kind != yaml.ScalarNode {
+		return 0
+	}
+	ok := func() (ok bool) {
+		defer func() {
+			if recover() != nil {
+				ok = false
+			}
+		}()
+		var v any
+		return n.Decode(&v) == nil && v == nil
+	}()
+	if ok {
+		return 1 << 12
+	}
+	return 0
+}
+
 func (p *forestPrinter) ann(v string) int {
 	if a, ok := p.memo[v]; ok {
 		return a
@@ -140,6 +161,7 @@ func (p *forestPrinter) node(n *yaml.Node) {
 	if n.Style&yaml.DoubleQuotedStyle != 0 {
 		a |= 1 << 11
 	}
+	a |= nodeNullDecBit(n)
 	a |= len(n.Anchor) << 16
 	var emb *yaml.Node
 	// parser.go parseNode only looks for YAML inside LITERAL block scalars (commit 147313f): the style condition is
@@ -331,25 +353,16 @@ func nodeInert(n *yaml.Node) bool {
 	return true
 }
 
-// hasTagKindMismatch: an explicit tag contradicts the node kind: a node whose ShortTag is !!map / !!seq / !!null
-// that is not a mapping / sequence yet carries content (or an embedded document).
+// hasTagKindMismatch: class predicate of the open known finding C19-tag-kind as narrowed by fix b22de24: a node whose
+// ShortTag is !!null although it is not an empty scalar: a mapping / sequence WITH content (or a scalar pint would
+// re-parse) explicitly tagged !!null.  kindMismatch exempts the !!null tag, strict mode then iterates the content
+// while relaxed mode dispatches on the kind.  (!!map / !!seq contradicting the kind are rejected by strict mode now.)
 func hasTagKindMismatch(docs []parser.VerifDoc) bool {
 	found := false
 	for _, d := range docs {
 		walkForest(d.Node, map[*yaml.Node]bool{}, func(n *yaml.Node) {
-			switch n.ShortTag() {
-			case "!!map":
-				if n.Kind != yaml.MappingNode && !nodeInert(n) {
-					found = true
-				}
-			case "!!seq":
-				if n.Kind != yaml.SequenceNode && !nodeInert(n) {
-					found = true
-				}
-			case "!!null":
-				if !nodeInert(n) {
-					found = true
-				}
+			if n.ShortTag() == "!!null" && !nodeInert(n) {
+				found = true
 			}
 		})
 	}
